@@ -114,7 +114,7 @@ def centre_w(s):
 
 
 # ----------------------------------------------------------------------------- RSOME spelling
-def rsome_constraints(s, z, u=None):
+def rsome_constraints(s, z, u=None, skip_via_late=False):
     """list of RSOME constraints on the random variables (z, u) for set s"""
     import rsome as rso
     out = []
@@ -148,6 +148,8 @@ def rsome_constraints(s, z, u=None):
                 out.append(rso.sumsqr(B @ (z - c)) <= p['r'] ** 2)
             else:
                 out.append(rso.quad(z - c, B.T @ B) <= p['r'] ** 2)
+        elif t == 'poly' and p.get('via_late') and skip_via_late:
+            pass        # stated by the model builder as a budget row through a random array declared later (see romodel.build)
         elif t == 'poly':
             G, h = np.array(p['G']), np.array(p['h'])
             if p['style'] == 'le':
